@@ -32,6 +32,9 @@ import numpy as np
 import hippolyzer.lib.base.datatypes as dtypes
 import hippolyzer.lib.base.serialization as se
 
+from hmc import introspect as ins
+from hmc.introspect import IntrospectionError, priv  # noqa: F401  (re-exported for the property module)
+
 INT_FMT = {"U8": "<B", "S8": "<b", "U16": "<H", "S16": "<h", "U32": "<I", "S32": "<i", "U64": "<Q", "S64": "<q"}
 INT_BITS = {"U8": 8, "S8": 8, "U16": 16, "S16": 16, "U32": 32, "S32": 32, "U64": 64, "S64": 64}
 
@@ -104,13 +107,12 @@ def small_int_alphabet(wire: str) -> List[int]:
 
 
 def prim_wire(spec: se.SerializablePrimitive) -> str:
-    ch = spec._struct_fmt[-1]
-    return {"B": "U8", "b": "S8", "H": "U16", "h": "S16", "I": "U32", "i": "S32", "Q": "U64", "q": "S64", "f": "F32",
-            "d": "F64"}[ch]
+    return ins.prim_wire(spec)
 
 
-def adapter_members(adapter: Any, depth: int = 0) -> List[int]:
-    """Every enum/flag member value reachable from an adapter (used only to aim the 32/64-bit alphabets)."""
+def adapter_members(adapter: Any, depth: int = 0, bits: int = 0) -> List[int]:
+    """Every enum/flag member value reachable from an adapter (used only to aim the 32/64-bit alphabets and the context
+    candidates).  Bitfield adapters are laid out behaviourally (ins.bitfield_layout); ``bits`` = width of the wire type."""
     out: List[int] = []
     if adapter is None or depth > 4:
         return out
@@ -118,19 +120,24 @@ def adapter_members(adapter: Any, depth: int = 0) -> List[int]:
         cls = getattr(adapter, attr, None)
         if cls is not None:
             out += [int(m) for m in cls.__members__.values()]
-    opts = getattr(adapter, "_options", None)
-    if isinstance(opts, dict):
-        for o in opts.values():
-            out += adapter_members(o, depth + 1)
-    bf = getattr(adapter, "_bitfield_spec", None)
-    if bf is not None:
-        cur = 0
-        for name, ent in bf._schema.items():
-            for m in adapter_members(ent.adapter, depth + 1):
-                out.append(m << cur if bf._bitfield.shift else m)
-            out.append(1 << cur)
-            out.append(((1 << ent.bits) - 1) << cur)
-            cur += ent.bits
+    if isinstance(adapter, se.ContextAdapter):
+        opts = priv(adapter, "_options", "spec-dict", default=None)
+        if isinstance(opts, dict):
+            for o in opts.values():
+                out += adapter_members(o, depth + 1, bits)
+    if isinstance(adapter, (se.BitField, se.BitfieldDataclass)):
+        if not bits:
+            child = ins.adapter_child(adapter)
+            bits = child.calc_size() * 8 if child is not None else 0
+        for name, low, mask, cls in ins.bitfield_layout(adapter, bits):
+            one = adapter.decode(1 << low, ctx=None, pod=False)
+            one = one[name] if isinstance(one, dict) else getattr(one, name)
+            shifted = low == 0 or int(one) == 1
+            if cls is not None:
+                for m in cls.__members__.values():
+                    out.append(int(m) << low if shifted else int(m))
+            out.append(1 << low)
+            out.append(mask)
     return out
 
 
@@ -267,8 +274,7 @@ class Domain:
                 raise UnknownSpec(f"no value domain for class-level spec {spec.__name__}")
             return meth(spec, ctx)
         if isinstance(spec, se.ForwardSerializable):
-            spec._ensure_evaled()
-            return self.variants(spec._wrapped, ctx, flag_bits, only_size)
+            return self.variants(ins.forward_target(spec), ctx, flag_bits, only_size)
         if isinstance(spec, se.EncodedTupleCoord):
             return self._encoded_coord(spec, ctx)
         if isinstance(spec, se.SerializablePrimitive):
@@ -304,16 +310,16 @@ class Domain:
         return [(r, f"vec{k}") for k, r in enumerate(rows)]
 
     def _encoded_coord(self, spec, ctx) -> List[Variant]:
-        per = [self.variants(s, ctx) for s in spec._elem_specs]
+        per = [self.variants(s, ctx) for s in priv(spec, "_elem_specs", "spec-seq")]
         n = max(len(p) for p in per)
         return [(tuple(p[(k + i) % len(p)][0] for i, p in enumerate(per)), f"qvec{k}") for k in range(n)]
 
     def _v_BytesFixed(self, spec, ctx):
-        n = spec._size
+        n = spec.calc_size()
         return [(b"\x00" * n, "zeros"), (b"\xff" * n, "ff"), (bytes((i * 37 + 1) & 0xFF for i in range(n)), "pattern")]
 
     def _v_ByteArray(self, spec, ctx):
-        mx = spec._len_spec.max_val
+        mx = priv(spec, "_len_spec", "prim").max_val
         out = [(b"abc", "abc"), (b"", "empty"), (b"\x00", "nul"), (bytes(range(min(255, mx))), "len255")]
         if mx >= 256:
             out.append((bytes(i & 0xFF for i in range(256)), "len256"))
@@ -328,23 +334,24 @@ class Domain:
         return [c for c in cands if not any(bytes([ch]) in terms for ch in c.encode("utf8"))]
 
     def _v_CStr(self, spec, ctx):
-        return [(t, f"text={t!r}") for t in self._cstr_texts(spec._bytes_tmpl.terminators)]
+        return [(t, f"text={t!r}") for t in self._cstr_texts(priv(spec, "_bytes_tmpl", "spec", only=(se.BytesBase,)).terminators)]
 
     def _v_BytesTerminated(self, spec, ctx):
         return [(t.encode("utf8"), f"bytes={t!r}") for t in self._cstr_texts(spec.terminators)]
 
     # -- adapters over primitives (wire-first)
     def _child_ints(self, adapter, sweep8=False) -> List[int]:
-        child = adapter._child_spec
+        child = ins.adapter_child(adapter)
         if child is None:
             raise UnknownSpec(f"{type(adapter).__name__} without child spec inside a payload template")
         return self._ints(prim_wire(child), sweep8)
 
     def _v_IntEnum(self, spec, ctx):
-        lo, hi = int_range(prim_wire(spec._child_spec))
+        wire = prim_wire(ins.adapter_child(spec))
+        lo, hi = int_range(wire)
         members = [int(m) for m in spec.enum_cls.__members__.values()]
         vals = []
-        for v in members + [m + 1 for m in members] + self._ints(prim_wire(spec._child_spec)):
+        for v in members + [m + 1 for m in members] + self._ints(wire):
             if lo <= v <= hi and v not in vals:
                 vals.append(v)
         if len(vals) > 24 and not self.thorough:
@@ -352,7 +359,7 @@ class Domain:
         return [(v, f"enum={v}") for v in vals]
 
     def _v_IntFlag(self, spec, ctx, flag_bits: int = 0):
-        wire = prim_wire(spec._child_spec)
+        wire = prim_wire(ins.adapter_child(spec))
         lo, hi = int_range(wire)
         members = [int(m) for m in spec.flag_cls.__members__.values()]
         allm = 0
@@ -381,7 +388,7 @@ class Domain:
         return [(spec.decode(r, ctx=None), f"raw={r}") for r in self._child_ints(spec)]
 
     def _v_FixedPoint(self, spec, ctx):
-        wire = prim_wire(spec._ser_spec)
+        wire = prim_wire(priv(spec, "_ser_spec", "prim"))
         return [(self._leaf_decode(spec, struct.pack(INT_FMT[wire], r)), f"raw={r}") for r in self._ints(wire)]
 
     def _v_BitField(self, spec, ctx):
@@ -397,7 +404,7 @@ class Domain:
         return [(b"\xff\xff\xff\xff", "white"), (b"\x00\x00\x00\x00", "zero"), (b"\x01\x80\x7f\xfe", "mixed")]
 
     def _v_PackedQuat(self, spec, ctx):
-        return [(v, "quat." + t) for v, t in self.variants(spec._child_spec, ctx)]
+        return [(v, "quat." + t) for v, t in self.variants(ins.adapter_child(spec), ctx)]
 
     def _v_ContextAdapter(self, spec, ctx):
         # wire-first through the option the context selects
@@ -409,19 +416,24 @@ class Domain:
 
     # -- optional / switched
     def _v_OptionalPrefixed(self, spec, ctx):
-        inner = self.variants(spec._ser_spec, ctx)
+        inner = self.variants(priv(spec, "_ser_spec", "spec"), ctx)
         return [inner[0], (None, "absent")] + inner[1:]
 
     def _v_IfPresent(self, spec, ctx):
-        inner = self.variants(spec._ser_spec, ctx)
+        inner = self.variants(priv(spec, "_ser_spec", "spec"), ctx)
         return [inner[0], (None, "absent")] + inner[1:]
 
+    @staticmethod
+    def _flagged(spec) -> Tuple[str, int]:
+        return priv(spec, "_flag_field", "str"), priv(spec, "_flag_val", "int")
+
     def _v_OptionalFlagged(self, spec, ctx):
-        flag_val = ctx[spec._flag_field] if ctx is not None and spec._flag_field in ctx else 0
+        field, bit = self._flagged(spec)
+        flag_val = ctx[field] if ctx is not None and field in ctx else 0
         if isinstance(flag_val, (tuple, list)):
             raise UnknownSpec("flag context must be generated as an int")
-        if int(flag_val) & spec._flag_val:
-            return self.variants(spec._ser_spec, ctx)
+        if int(flag_val) & bit:
+            return self.variants(priv(spec, "_ser_spec", "spec", index=-1), ctx)
         return [(None, "flag-off")]
 
     def _encoded_len(self, spec, val) -> Optional[int]:
@@ -437,13 +449,14 @@ class Domain:
         (trial encoding with the choice spec), for the catch-all branch only values whose size selects no other branch."""
         out = []
         heads = []
-        for size, choice in spec._choice_specs.items():
+        choices = priv(spec, "_choice_specs", "spec-dict")
+        for size, choice in choices.items():
             if only_size is not None and size != only_size:
                 continue
             first = True
             for v, t in self.variants(choice, ctx):
                 n = self._encoded_len(choice, v)
-                if n is None or (size is not None and n != size) or (size is None and n in spec._choice_specs):
+                if n is None or (size is not None and n != size) or (size is None and n in choices):
                     continue
                 (heads if first else out).append(((size, v), f"len{size}.{t}"))
                 first = False
@@ -452,15 +465,16 @@ class Domain:
 
     def _v_EnumSwitch(self, spec, ctx):
         out = []
-        for key, choice in spec._choice_specs.items():
+        choices = priv(spec, "_choice_specs", "spec-dict")
+        for key, choice in choices.items():
             for v, t in self.variants(choice, ctx):
                 out.append(((int(key), v), f"case{int(key)}.{t}"))
-        heads = [next(x for x in out if x[0][0] == int(k)) for k in spec._choice_specs]
+        heads = [next(x for x in out if x[0][0] == int(k)) for k in choices]
         return heads + [x for x in out if not any(x is h for h in heads)]
 
     # -- containers
     def _v_Template(self, spec, ctx):
-        return self._fields(list(spec._template_spec.items()))
+        return self._fields(list(priv(spec, "_template_spec", "spec-dict").items()))
 
     def _fields(self, items: List[Tuple[str, Any]]) -> List[Variant]:
         names = [n for n, _ in items]
@@ -468,7 +482,8 @@ class Domain:
         refbits: Dict[str, int] = {}
         for n, s in items:
             if isinstance(s, se.OptionalFlagged):
-                refbits[s._flag_field] = refbits.get(s._flag_field, 0) | s._flag_val
+                field, bit = self._flagged(s)
+                refbits[field] = refbits.get(field, 0) | bit
 
         def child_variants(n, vals):
             return self.variants(specs[n], vals, flag_bits=refbits.get(n, 0))
@@ -506,10 +521,11 @@ class Domain:
         return self.variants(spec.template, ctx)
 
     def _v_Collection(self, spec, ctx):
-        ev = self.variants(spec._entry_ser, None)
+        framing, entry_spec, _, fixed = ins.collection_info(spec)
+        ev = self.variants(entry_spec, None)
         e0 = ev[0][0]
-        if spec._length:
-            n = spec._length
+        if framing == "fixed":
+            n = fixed
             return [([e0] * n, "fixed.base")] + [([v] + [e0] * (n - 1), f"fixed.0.{t}") for v, t in ev[1:]]
         out = [([e0], "one"), ([], "empty"), ([e0, e0], "two")]
         out += [([v], f"0.{t}") for v, t in ev[1:]]
@@ -518,10 +534,10 @@ class Domain:
         return out
 
     def _v_DictAdapter(self, spec, ctx):
-        child = spec._child_spec
+        child = ins.adapter_child(spec)
         if not isinstance(child, se.Collection):
             raise UnknownSpec("DictAdapter over non-collection")
-        ev = self.variants(child._entry_ser, None)
+        ev = self.variants(ins.collection_info(child)[1], None)
         heads: List[Variant] = []
         for v, t in ev:  # first variant per distinct key
             if not any(h[0][0] == v[0] for h in heads):
@@ -533,8 +549,9 @@ class Domain:
         return out
 
     def _typed(self, spec, ctx, only_size=None):
-        inner = self.variants(spec._spec, None, only_size=only_size)
-        if spec._empty_is_none:
+        inner_spec, _, empty_is_none = ins.typed_bytes_info(spec)
+        inner = self.variants(inner_spec, None, only_size=only_size)
+        if empty_is_none:
             inner = [inner[0], (None, "none")] + inner[1:]
         return inner
 
@@ -542,11 +559,11 @@ class Domain:
         return self._typed(spec, ctx)
 
     def _v_TypedBytesFixed(self, spec, ctx):
-        return self._typed(spec, ctx, only_size=spec._bytes_tmpl._size)
+        return self._typed(spec, ctx, only_size=ins.typed_bytes_info(spec)[1].calc_size())
 
     # -- texture entries
     def _v_TEExceptionField(self, spec, ctx):
-        iv = self.variants(spec._spec, None)
+        iv = self.variants(priv(spec, "_spec", "spec"), None)
         d0 = iv[0][0]
         alt = [v for v, _ in iv[1:]] or [d0]
         a = lambda k: alt[k % len(alt)]
@@ -558,7 +575,7 @@ class Domain:
                 ({None: d0, (7,): a(1)}, "exc-face7"),
                 ({None: d0, (44,): a(2), (1, 3): a(0)}, "exc-44+1-3")]
         out += [({None: d0, (5,): v}, f"exc-face5.{t}") for v, t in iv[1:]]
-        if spec._optional:
+        if ins.te_optional(spec):
             out.insert(1, (None, "absent"))
         return out
 
